@@ -296,7 +296,7 @@ def _merge_objs(objs):
             o.items = None
             o.elem = seqs[0][1][1]
             o.seq = _ite_term([(g, s[0]) for g, s in seqs])
-    if o.kind == "dict" and o.d is not None:
+    if o.kind == "dict" and o.d is not None and o.sym is None:
         keys = set()
         for _, ob in objs:
             keys.update(ob.d.keys())
@@ -306,8 +306,18 @@ def _merge_objs(objs):
                 raise Unsupported("dict key set differs across merged branches")
             first = vals[0][1]
             o.d[k] = first if all(same_value(first, v) for _, v in vals[1:]) else mk_union(vals)
-    if o.kind == "dict" and o.sym is not None:
-        o.sym = dict(o.sym)
+    if o.kind == "dict" and any(ob.sym is not None for _, ob in objs):
+        tmpl = [ob.sym for _, ob in objs if ob.sym is not None][0]
+        for _, ob in objs:
+            if ob.sym is None:
+                if ob.d:
+                    raise Unsupported("merge of concrete-key dict and symbolic table")
+                # an empty literal dict on this branch: the empty table
+                ob.sym = {"ktype": tmpl["ktype"], "vtype": tmpl["vtype"],
+                          "has": z3.K(tmpl["has"].sort().domain(), z3.BoolVal(False)), "val": tmpl["val"]}
+                ob.d = None
+        o.d = None
+        o.sym = dict(tmpl)
         o.sym["has"] = _ite_term([(g, ob.sym["has"]) for g, ob in objs])
         o.sym["val"] = _ite_term([(g, ob.sym["val"]) for g, ob in objs])
     if o.kind == "alist":
